@@ -156,6 +156,7 @@ func (g *Gen) addEdges() {
 
 func genC01(g *Gen) {
 	g.setMode(0)
+	g.addGrid(0.4)
 	for !g.w.full() {
 		switch g.r.Intn(11) {
 		case 11:
@@ -273,6 +274,8 @@ func (g *Gen) quoPair() (x, y d128.Decimal) {
 
 func genC02(g *Gen) {
 	g.setMode(0)
+	g.mulGrid(0.4)
+	g.quoGrid(0.12)
 	for !g.w.full() {
 		switch g.r.Intn(18) {
 		case 16:
